@@ -1337,6 +1337,13 @@ func runOracles(h *history, r *runResult) []failure {
 		o.c04()
 		return o.fails
 	}
+	if h.Leg == "slow-reader" {
+		for _, p := range r.panics {
+			o.fail("C05", "ll:slow-reader:panic", "panic while driving the muxer with overlapping requests: %s", p)
+		}
+		o.c05Slow()
+		return o.fails
+	}
 	for _, p := range r.panics {
 		o.fail("C08", variantName(h.Variant)+":panic", "panic while driving the muxer: %s", p)
 	}
